@@ -164,9 +164,10 @@ def run(tier, seed):
             for p in plans:
                 f.write(json.dumps(p, separators=(",", ":")) + "\n")
         trace = os.path.join(wd, "trace.ndjson")
-        rc, err = core.run_harness(vh, "transport", ["--plans", pp, "--trace", trace, "--blobs", os.path.join(wd, "blobs.ndjson")])
-        if rc != 0:
-            raise core.ToolError("transport driver failed: " + err[-2000:])
+        # a driver that dies (abort, stack overflow, refused allocation) or does not come back inside the library is an
+        # observation about the code: reported as a violation, what was recorded before is still analysed
+        from .. import faults as _faults
+        _faults.run_with_watchdog(v, vh, "transport", ["--plans", pp, "--trace", trace, "--blobs", os.path.join(wd, "blobs.ndjson")], wd, plans)
         accepted, rejects = core.tv_all("Trace_TransportRead", trace, "/dev/null", wd, shards=8)
         for r in rejects:
             evs = [json.loads(x) for x in r["run_events"]]
@@ -183,7 +184,7 @@ def run(tier, seed):
         runs = core.split_runs(lines)
         tested = []
         st = [lines[s:e] for (s, e) in runs if json.loads(lines[s]).get("run") == "selftest"]
-        ok_self = core.tv_once("Trace_TransportRead", _write(wd, "self.ndjson", st[0]), "/dev/null", wd) is None
+        ok_self = bool(st) and not v.violations and core.tv_once("Trace_TransportRead", _write(wd, "self.ndjson", st[0]), "/dev/null", wd) is None
         if ok_self:
             tested = selftest.run("Trace_TransportRead", st[0], "/dev/null", wd, corruptions())
             # X.224 layer: after a frame that is not a data TPDU has been refused, the data TPDU behind it must come out
